@@ -57,6 +57,49 @@ def op_tree(stmts, recv):
   return out
 
 
+def router_answers(ctx):
+  """A decoded produce response is always delivered: on every path of the router's response handler a message with a return value is answered
+  (handed up, turned into an error reply) or retried exactly once, and nothing on the way can raise for some error code the broker may send
+  (a lookup in a fixed table of known codes is partial: Kafka brokers send codes the table does not list)."""
+  prog = ctx.prog
+  f = prog.func(KS, 'KafkaRouterSink.AsyncProcessResponse')
+  why = 'a reply is delivered to the request with the same correlation id, for every encodable response (every error code included)'
+  # dict displays defined at class / module level of the kafka modules, and the functions that index them with a non-constant key
+  tables = set()
+  for rel in (KP, KS):
+    m = prog.module(rel)
+    for c in m.classes.values():
+      for st in c.node.body:
+        if isinstance(st, ast.Assign) and isinstance(st.value, ast.Dict) and isinstance(st.targets[0], ast.Name):
+          tables.add(st.targets[0].id)
+    for nm, v in m.assigns.items():
+      if isinstance(v, ast.Dict):
+        tables.add(nm)
+
+  def partial_lookup(node):
+    for x in ast.walk(node):
+      if isinstance(x, ast.Subscript) and isinstance(x.ctx, ast.Load) and not isinstance(x.slice, ast.Constant) and U(x.value).split('.')[-1] in tables:
+        return x
+    return None
+  partial = set(g.name for g in prog.all_funcs if g.module.rel in (KP, KS) and partial_lookup(g.node) is not None)
+
+  def mr(call, armed):
+    a = call_attr(call) or (call.func.id if isinstance(call.func, ast.Name) else None)
+    return ['KeyError'] if a in partial else []
+  n = 0
+  for ev, ex in enum_paths(ctx, f, mr):
+    fs = FACTS(ev)
+    if not any(c.endswith('.return_value') and t for c, t in fs):
+      continue
+    n += 1
+    ans = [e for e in ev if e.kind == 'call' and call_attr(e.node) in ('AsyncProcessResponseMessage', '_RefreshBrokersAndRetry', 'AsyncProcessResponse')]
+    direct = [U(partial_lookup(e.node)) for e in ev if e.kind in ('stmt', 'call', 'cond', 'ret') and partial_lookup(e.node) is not None]
+    ctx.ob('C15.R4', f, 'a decoded response is answered or retried exactly once, and nothing before that can fail on an error code', len(ans) == 1 and ex[0] == 'ret' and not direct,
+           'path exits by %s with %d answers%s' % (ex[0], len(ans), ('; unguarded table lookups: %s' % direct) if direct else
+                                                    ('' if ex[0] == 'ret' else ' (a lookup in a fixed table of known codes raises KeyError for a code the table does not list: %s)' % sorted(partial))), why)
+  ctx.floor('C15.R4', 'response paths of the router carrying a return value', n, 3)
+
+
 def check(ctx):
   prog = ctx.prog
   ctx.rule('C15.R1', 'struct format/arity/kind agreement on the produce/response paths and the binary helpers')
@@ -105,6 +148,11 @@ def check(ctx):
   r5(ctx)
   put_args_rules(ctx)
   fresh_per_entry(ctx)
+  router_answers(ctx)
+  from . import c14
+  ctx.rule('C14.R2', 'shared with C14: the read-exactly-N loops under the receive loop ask for what is still missing and advance by what was received (a loop that asks for the whole size again '
+                     'swallows the size prefix and body of the responses pipelined behind a frame that arrived in pieces: those replies are never delivered)')
+  c14.r2(ctx)
   from . import c11
   ctx.rule('C11.R3', 'shared with C11: a correlation id is released only by the reply path or for a never-written request (Kafka has no discard message)')
   c11.r2_r3(ctx)
